@@ -429,6 +429,8 @@ class Exec(Path):
         spec, k = self.loop_spec(s)
         if s.orelse:
             raise Unsupported("for/else")
+        if spec is not None and spec.get("protocol"):
+            return self.for_protocol(s, spec, k)
         if spec is not None and spec.get("over"):
             # the iterable is an iterator object whose protocol contract says it yields the ghost sequence `over`
             gv = self.eval_contract_expr(spec["over"], want_bool=False)
@@ -463,6 +465,34 @@ class Exec(Path):
 
         self.cut_loop(s, spec, k, cond, pre_body, idxname=idxname, bound=n)
 
+    def for_protocol(self, s, spec, k):
+        """for x in obj:  where obj is a repository iterator object -- desugared to next()/StopIteration through the
+        contract of its __next__ (DESIGN section 9, 'Iterators')"""
+        it = self.eval(s.iter)
+        h = self.deref(it)
+        if not isinstance(h, HObj) or isinstance(h.cls, str):
+            raise Unsupported("iterator protocol on a non-repository object")
+        nxt = self.repo.lookup_method(h.cls, "__next__")
+        if nxt is None:
+            raise Unsupported("object has no __next__")
+        state = {"stop": False}
+
+        def cond():
+            try:
+                v = self.call_repo(nxt, [it], {})
+            except PyRaise as pr:
+                if pr.exc.cls.split(".")[-1] == "StopIteration":
+                    state["stop"] = True
+                    return z3.BoolVal(False)
+                raise
+            state["value"] = v
+            return z3.BoolVal(True)
+
+        def pre_body():
+            self.assign(s.target, state["value"])
+
+        self.cut_loop(s, spec, k, cond, pre_body)
+
     def cut_loop(self, s, spec, k, cond, pre_body, idxname=None, bound=None):
         fn = self.func_stack[-1]
         label = f"loop{k}"
@@ -481,6 +511,8 @@ class Exec(Path):
         for inv in invs:
             props, lab, expr = self._clause(inv, fn)
             self.assume(self.eval_contract_expr(expr))
+        for gname, gexpr in spec.get("let", {}).items():
+            self.env[gname] = self.eval_contract_expr(gexpr, want_bool=False)      # ghost snapshot at the loop head
         dec0 = None
         if spec.get("decreases"):
             dec0 = self.eval_contract_expr(spec["decreases"], want_bool=False)
@@ -631,7 +663,7 @@ class Exec(Path):
         if isinstance(h, HBytes):
             h.t = self.fresh(name, BYTES)
         elif isinstance(h, HList):
-            if h.items is not None and any(isinstance(x, VRef) for x in h.items):
+            if h.items is not None and any(isinstance(x, VRef) and not isinstance(self.heap[x.rid], (HDict, HList, HBytes)) for x in h.items):
                 raise Unsupported("havoc of list holding object references")
             h.items, h.rule = None, None
             h.seq = self.fresh(name, PVSEQ)
@@ -865,6 +897,8 @@ class Exec(Path):
         return self.getattr(obj, n.attr)
 
     def getattr(self, obj, attr):
+        if attr in PROGBAR_ATTRS and isinstance(obj, VRef):
+            return VNone()              # progress-bar objects are dropped by the extraction
         if isinstance(obj, VModule):
             dotted = f"{obj.name}.{attr}"
             if obj.name.startswith("torrentfile"):
@@ -1786,6 +1820,8 @@ class Exec(Path):
                 selfobj = self.deref(bound.get("self"))
                 if isinstance(selfobj, HObj):
                     selfobj.fields[fld] = self.make_symbolic(f"{info.name}_{fld}", ft)
+            for gname in c.extra.get("ghost_out", {}):
+                self.ghost[gname] = self.fresh("ghost_" + gname, BYTES)       # constrained by the ensures clauses below
             result = self.make_symbolic("result_" + info.name, c.returns) if c.returns else VNone()
             self.env["result"] = result
             saved_old = self.old
@@ -1803,8 +1839,10 @@ class Exec(Path):
                     self.env[used[0]] = trig
                     self.assume(self.eval_contract_expr(expr))
             for gname, gexpr in c.extra.get("ghost_out", {}).items():
+                if gexpr.strip() in ("hashed()",):
+                    continue
                 gv = self.eval_contract_expr(gexpr, want_bool=False)
-                self.ghost[gname] = self.bytes_term(gv) if self.bytes_term(gv) is not None else gv
+                self.assume(self.ghost[gname] == self.bytes_term(gv))
             post = c.extra.get("post_hook")
             if post:
                 post(self, bound, result)
